@@ -19,7 +19,7 @@ func vrtArchiveChoice(na int) int {
 // VerifC09_Diff: two files of equal layout: ErrDiffFound exactly when some selected archive
 // has, within the window, a slot whose two values differ (two NaNs are equal); nil otherwise.
 func VerifC09_Diff() {
-	h := vrtCmdHeader(vrtCmdLayoutsWide(), wt.Sum, 0.5)
+	h := vrtCmdHeader(vrtCmdLayouts(), wt.Sum, 0.5)
 	na := len(h.ArchiveInfoList())
 	now := vrtCmdInstant(h, "now")
 	vrtCmdAssumeClock(h, now)
